@@ -716,7 +716,10 @@ class Checker:
         if recipe is not None:
             rule = f.rule
             small = recipe
+            self.shrunk = getattr(self, "shrunk", 0) + 1
             try:
+                if self.shrunk > 2:        # shrinking re-runs the program many times: only the first reports
+                    raise RuntimeError("skip shrinking")
                 small = gen_terms.shrink(recipe, lambda r: any(b["rule"] == rule for b in
                                                                bad_firings(r, mode, rec=self.rec)), budget=120)
             except Exception:
@@ -847,7 +850,7 @@ def correspond(ctx):
     try:
         chk = Checker(ctx, rec)
         if ctx.tier == "quick":
-            battery(ctx, chk, 500, 350)
+            battery(ctx, chk, 1000, 700)
         else:
             battery(ctx, chk, 6000, 4000)
         shared_binder_stream(ctx, rec)
@@ -870,13 +873,22 @@ def correspond(ctx):
 def search(ctx, broken):
     """Python-oracle-only hunt at ~10x volume (works without the Lean build)."""
     import random
+    import re as _re
+    # rules registered in the source but not classified in Props/C02.lean (a newly registered rule)
+    try:
+        props = (LEAN / "FunsorVerif" / "Props" / "C02.lean").read_text()
+        classified = set(_re.findall(r'"(funsor\.[A-Za-z0-9_.<>]+)"', props))
+        unclassified = sorted(set(e[2] for e in registry_entries()) - classified)
+    except Exception:
+        unclassified = []
+    ctx.extra["unclassified_rules"] = unclassified
     rec = R.Recorder()
     rec.install()
     try:
         rng = random.Random(f"C02-search-{ctx.seed}")
         t0 = time.time()
         n = 0
-        while time.time() - t0 < (240 if ctx.tier == "quick" else 900) and n < 20000:
+        while time.time() - t0 < (120 if ctx.tier == "quick" else 600) and n < 20000:
             n += 1
             if rng.random() < 0.5:
                 recipe, _ = gen_terms.gen_expr(rng, gen_ctx(rng), rng.choice([2, 3, 4]), "real")
@@ -884,6 +896,8 @@ def search(ctx, broken):
                 recipe = gen_sumproduct(rng, rng.choice(list(SEMIRINGS)))
             mode = rng.choice(MODES)
             bad = bad_firings(recipe, mode, rec=rec)
+            if unclassified and any(x["rule"] in unclassified for x in bad):
+                bad = [x for x in bad if x["rule"] in unclassified]     # prefer the new rule as the call site
             if bad:
                 b = bad[0]
                 rule = b["rule"]
